@@ -29,6 +29,8 @@ macro_rules! quote {
     (u8) => { crate::proc_macro2::TokenStream::AlignTy(1) };
     (pub _bindgen_align : [ # $t:ident ; 0 ] ,) => { match $t { crate::proc_macro2::TokenStream::AlignTy(a) => crate::proc_macro2::TokenStream::AlignField(a), _ => crate::proc_macro2::TokenStream::Other } };
     (# [repr (align (# $e:ident))]) => { crate::proc_macro2::TokenStream::ReprAlign($e) };
+    // the allocation-unit constructor of BitfieldUnit::codegen (layout kernel, harness unit_*): not looked at
+    (# [inline] $($t:tt)*) => { crate::proc_macro2::TokenStream::Other };
 }
 pub mod proc_macro2 {
     #[derive(Debug, Clone, Copy)] pub struct Ident(pub usize);
